@@ -5,6 +5,8 @@ package main
 
 import (
 	"go/types"
+	"sort"
+	"strings"
 
 	"golang.org/x/tools/go/ssa"
 )
@@ -36,7 +38,9 @@ type Anchors struct {
 	ExprImpls                                             []*types.Named
 	KeySchema, KeyRows, KeyValue                          *ssa.Global
 
-	// queryparser
+	// queryparser: the exported entry points are resolved by name; everything unexported comes from the structural
+	// resolution in rules_ag5.go (PS), so that renaming unexported identifiers neither alarms nor disables a rule
+	PS                                                                              *parserShape
 	ParseQuery, ParserParse, ParseSimple, Walk, WalkInner, ReplacePH, QueryToString *ssa.Function
 	Lex, LexRun, ParserErrorf                                                       *ssa.Function
 
@@ -122,15 +126,16 @@ func resolveAnchors(c *Ctx) *Anchors {
 	}
 
 	a.ParseQuery = f("parse.entry", w.fn(pkgParser, "ParseQuery"))
-	a.ParserParse = f("parse.top", w.method(pkgParser, "parser", "parse"))
-	a.ParseSimple = f("parse.simple", w.method(pkgParser, "parser", "parseSimpleExpr"))
-	a.ParserErrorf = f("parse.errorf", w.method(pkgParser, "parser", "errorf"))
 	a.Walk = f("walk.fn", w.fn(pkgParser, "Walk"))
-	a.WalkInner = f("walk.inner", w.fn(pkgParser, "walk"))
 	a.ReplacePH = f("bind.fn", w.fn(pkgParser, "ReplacePlaceholders"))
 	a.QueryToString = f("fmt.entry", w.fn(pkgParser, "QueryToString"))
-	a.Lex = f("lex.new", w.fn(pkgParser, "lex"))
-	a.LexRun = f("lex.run", w.method(pkgParser, "lexer", "run"))
+	a.PS = resolveParserShape(c)
+	a.ParserParse = f("parse.top", a.PS.Parse)
+	a.ParseSimple = f("parse.simple", a.PS.ParseSimple)
+	a.ParserErrorf = f("parse.errorf", a.PS.PErrorf)
+	a.WalkInner = f("walk.inner", walkInner(w, a.Walk))
+	a.Lex = f("lex.new", a.PS.LexNew)
+	a.LexRun = f("lex.run", a.PS.LexRun)
 
 	a.ToQuery = f("conv.toquery", w.fn(pkgConvert, "ToQuery"))
 	a.ToExpr = f("conv.toexpr", w.fn(pkgConvert, "toExpr"))
@@ -156,6 +161,34 @@ func resolveAnchors(c *Ctx) *Anchors {
 
 	a.OpenFileFn = f("openfile.fn", w.fn(pkgOpen, "OpenFile"))
 	return a
+}
+
+// walkInner: the recursive worker behind the exported Walk — today's `walk`, or else the one function of the parser
+// package to which Walk hands its callback parameter.
+func walkInner(w *World, walk *ssa.Function) *ssa.Function {
+	if g := w.fn(pkgParser, "walk"); g != nil || walk == nil {
+		return g
+	}
+	var cands []*ssa.Function
+	allInstrs(walk, func(i ssa.Instruction) {
+		call, ok := i.(*ssa.Call)
+		if !ok {
+			return
+		}
+		f := calleeFunc(&call.Call)
+		if f == nil || f == walk || w.pkgPathOf(f) != pkgParser {
+			return
+		}
+		for _, a := range call.Call.Args {
+			if p, ok := a.(*ssa.Parameter); ok && len(walk.Params) > 0 && p == walk.Params[len(walk.Params)-1] {
+				cands = append(cands, f)
+			}
+		}
+	})
+	if len(cands) == 1 {
+		return cands[0]
+	}
+	return nil
 }
 
 // need reports roles as undecided for a rule when any of the given entities is missing.
@@ -184,7 +217,19 @@ func (c *Ctx) need(rule string, vals ...interface{}) bool {
 		}
 	}
 	if !ok {
-		c.r.undecided(rule, "<anchor>", "an anchor this rule needs no longer resolves (renamed or removed): "+joinStrings(c.a.missing))
+		msg := "an anchor this rule needs no longer resolves (renamed or removed): " + joinStrings(c.a.missing)
+		if c.a.PS != nil && (strings.HasPrefix(rule, "C09") || strings.HasPrefix(rule, "C10")) {
+			// structurally resolved parser entities: say why the shape was not recognised
+			var roles []string
+			for r := range c.a.PS.why {
+				roles = append(roles, r)
+			}
+			sort.Strings(roles)
+			for _, r := range roles {
+				msg += "; " + r + ": " + c.a.PS.why[r]
+			}
+		}
+		c.r.undecided(rule, "<anchor>", msg)
 	}
 	return ok
 }
